@@ -36,7 +36,7 @@ TEXT = {
               'real engine in a killable worker; results must agree and the real result must be output or a usable SourceError '
               'within the time budget.'),
     "design_ref": 'DESIGN.md 6 C01',
-    "note": NOTE + ('Parts of the code answered `unmodelled` (the date filter and time formatting, sort with an order that is not a strict weak order, '
+    "note": NOTE + ('Parts of the code answered `unmodelled` (the date filter and time formatting, sort of more than 12 elements with an order that is not a strict weak order, '
               'case mapping outside the modelled table, some float edge cases; counted in evidence) are covered by the oracle on '
               'the real code only. Time/space is measured on the implementation, not proved (the model has no cost semantics).'),
     "technique": ('Lean 4 proof (no-panic invariant by structural induction over the render tree and the value layer) + '
